@@ -29,7 +29,12 @@ V17(e) == IF ~ReturnsNormally(e) THEN "ReturnsNormally" ELSE IF ~InputUntouched(
 
 \* ---- C18: expected class and outliers known from construction
 V18(e) == IF ~ReturnsNormally(e) THEN "ReturnsNormally" ELSE IF e.cls # e.expected_cls THEN "ExpectedClass"
-          ELSE IF ToSet(e.outliers) # ToSet(e.expected_outliers) THEN "OutliersAreTheAdsorbates" ELSE "ok"
+          ELSE IF ToSet(e.outliers) # ToSet(e.expected_outliers) THEN "OutliersAreTheAdsorbates"
+          \* the structure shifted through the periodic boundary, wrapped, rotated and renumbered (outliers in the original numbering)
+          ELSE IF \E k \in 1..Len(e.variants) : e.variants[k].error # "" THEN "TranslatedReturnsNormally"
+          ELSE IF \E k \in 1..Len(e.variants) : e.variants[k].cls # e.expected_cls THEN "TranslationInvariantClass"
+          ELSE IF \E k \in 1..Len(e.variants) : ToSet(e.variants[k].outliers) # ToSet(e.expected_outliers_orig) THEN "TranslationInvariantOutliers"
+          ELSE "ok"
 
 Verdict(e) == CASE Mode = "C17" -> V17(e) [] Mode = "C18" -> V18(e)
 VARIABLES i, done
